@@ -1,7 +1,7 @@
 """R21 CLONES — sibling copies of one piece of model code keep the same shape.
 
 The groups in tables/r21.toml are functions / closures that are copy-paste clones today (identical sequence of
-callee names, confirmed by reading).  A change applied to one clone but not to its siblings — dropping the sqrt(n_i)
+callee names, floating-point operators and constants, confirmed by reading).  A change applied to one clone but not to its siblings — dropping the sqrt(n_i)
 scaling from one of the three criticality objectives, editing one of the two cross-association solvers — makes the
 clones disagree, which is exactly the 'independent implementations of the same model agree' property (C08) and, for the
 criticality objectives, the defining conditions of C06."""
@@ -17,15 +17,33 @@ IGN = {"from", "from_re", "into", "clone", "deref", "deref_mut", "borrow", "as_r
 
 
 def signature(b):
+    """sequence of callee names, float-typed MIR operators and float constants (index / integer arithmetic, conversions,
+    iterator plumbing and error plumbing are left out)"""
     out = []
     for blk in b.blocks:
         if blk["cleanup"]:
             continue
+        for st in blk["stmts"]:
+            if st.get("exp"):
+                continue
+            rv = st["rv"]
+            if rv["k"] == "binop":
+                ops = [rv["a"], rv["b"]]
+                if any(o.get("f") is not None for o in ops) or any((b.opty(o) or {}).get("f64") for o in ops if o.get("k") in ("copy", "move")):
+                    out.append("op:" + rv["op"])
+                    for o in ops:
+                        if o.get("f") is not None:
+                            out.append("c:%s" % o["f"])
+            elif rv["k"] == "unop" and rv["a"].get("k") in ("copy", "move") and (b.opty(rv["a"]) or {}).get("f64"):
+                out.append("un:" + rv["op"])
         t = blk["term"]
         if t["k"] == "call" and not t.get("exp"):
             n = callee(t)[2]
             if n and n not in IGN:
                 out.append(n)
+                for a in t["args"]:
+                    if a.get("f") is not None:
+                        out.append("c:%s" % a["f"])
     return tuple(out)
 
 
@@ -52,6 +70,25 @@ def run(F, want=None):
         sigs = {}
         for suf, b, s in members:
             sigs.setdefault(s, []).append((suf, b))
+        if len(sigs) > 1:
+            # closure members are addressed by index; adding / removing another closure in the parent renumbers them:
+            # a deviating closure member is re-resolved to the sibling closure of the same parent that carries the
+            # majority signature, if there is one
+            for major in [kv[0] for kv in sorted(sigs.items(), key=lambda kv: -len(kv[1]))]:
+                fixed = []
+                for suf, b, s in members:
+                    if s != major and "::{closure#" in suf:
+                        parent = b.path.rsplit("::{closure#", 1)[0]
+                        alt = [c for c in F.bodies if c.path.startswith(parent + "::{closure#") and signature(c) == major]
+                        if alt:
+                            b, s = alt[0], major
+                    fixed.append((suf, b, s))
+                if len({m[2] for m in fixed}) == 1:
+                    members = fixed
+                    break
+            sigs = {}
+            for suf, b, s in members:
+                sigs.setdefault(s, []).append((suf, b))
         if len(sigs) == 1:
             r.inst(iid, members[0][1].file_line(), "ok", members=len(members), calls=len(members[0][2]))
             continue
